@@ -60,7 +60,7 @@ def run(ctx):
     # identical bytes for every thread count incl. the CLI default: at least one worker is always spawned
     fcli = ctx.view(c15.CLI, c15.UNIT)
     if fcli is not None:
-        c15.flow_rule(dep(ctx, "C05", "C15"), fcli)
+        c15.flow_rule(dep(ctx, "C05", "C15"), fcli, arms=("Oligo",))
     # fixed-width rows (and hence row offsets) need finite values: divisor guard of the per-record vector
     fo = ctx.view(ONE)
     if fo is not None:
